@@ -111,6 +111,17 @@ INVALID_ICS = [
     b"BEGIN:VCALENDAR\r\nVERSION:2.0\r\nPRODID:x\r\nBEGIN:VEVENT\r\nUID:ctl\r\nDTSTAMP:20200101T000000Z\r\n"
     b"DTSTART:20200101T000000Z\r\nSUMMARY:bad \x01 char\r\nEND:VEVENT\r\nEND:VCALENDAR\r\n",
     b"BEGIN:VCALENDAR\r\nVERSION:2.0\r\nPRODID:x\r\nBEGIN:VEVENT\r\nUID:nest\r\nEND:VCALENDAR\r\n",
+    # a forbidden control character deeper in the object: in an alarm of an event, in the
+    # observance of a time zone, in a calendar-level property
+    b"BEGIN:VCALENDAR\r\nVERSION:2.0\r\nPRODID:x\r\nBEGIN:VEVENT\r\nUID:ctl-alarm\r\nDTSTAMP:20200101T000000Z\r\n"
+    b"DTSTART:20200101T000000Z\r\nSUMMARY:fine\r\nBEGIN:VALARM\r\nACTION:DISPLAY\r\nDESCRIPTION:bad \x01 char\r\n"
+    b"TRIGGER:-PT15M\r\nEND:VALARM\r\nEND:VEVENT\r\nEND:VCALENDAR\r\n",
+    b"BEGIN:VCALENDAR\r\nVERSION:2.0\r\nPRODID:x\r\nBEGIN:VTIMEZONE\r\nTZID:X/Y\r\nBEGIN:STANDARD\r\n"
+    b"DTSTART:19701101T020000\r\nTZOFFSETFROM:-0400\r\nTZOFFSETTO:-0500\r\nTZNAME:E\x0cST\r\nEND:STANDARD\r\n"
+    b"END:VTIMEZONE\r\nBEGIN:VEVENT\r\nUID:ctl-tz\r\nDTSTAMP:20200101T000000Z\r\nDTSTART:20200101T000000Z\r\n"
+    b"SUMMARY:fine\r\nEND:VEVENT\r\nEND:VCALENDAR\r\n",
+    b"BEGIN:VCALENDAR\r\nVERSION:2.0\r\nPRODID:x\r\nX-WR-CALNAME:bad \x01 name\r\nBEGIN:VEVENT\r\nUID:ctl-cal\r\n"
+    b"DTSTAMP:20200101T000000Z\r\nDTSTART:20200101T000000Z\r\nSUMMARY:fine\r\nEND:VEVENT\r\nEND:VCALENDAR\r\n",
 ]
 INVALID_VCF = [
     b"",
